@@ -559,7 +559,7 @@ func (e *vf4Env) consume(consumer, tok string, ctx map[string]string, now int64)
 		rr := httptest.NewRecorder()
 		// the user the request was authenticated as: this stream is about the TOKEN (kind, key, values), so the
 		// caller is whoever the presented token names; whose session may be raised is C05's subject
-		_, uerr := st.updateAuthCookieAuthlevel(rr, r, vf4TokenSubject(tok), lvl)
+		_, uerr := vfUpgradeCookie(st, rr, r, vf4TokenSubject(tok), lvl)
 		res.sc = vf4HasAuthSetCookie(rr)
 		if uerr != nil {
 			res.dec = "rej " + vf4ErrClass(uerr)
